@@ -36,6 +36,7 @@ func runC10(rt *rapid.T, st *stats.Collector) {
 		telemetry: rapid.Bool().Draw(rt, "telemetry"),
 		rounds:    rapid.IntRange(1, 3).Draw(rt, "rounds"),
 		readTO:    rapid.SampledFrom([]time.Duration{0, 50 * time.Millisecond}).Draw(rt, "read-timeout"),
+		prior:     rapid.SampledFrom([]int{0, 0, 0, 1, 2}).Draw(rt, "earlier-exception-queries"),
 	}
 	effRead := sc.readTO
 	if effRead == 0 {
@@ -45,6 +46,9 @@ func runC10(rt *rapid.T, st *stats.Collector) {
 	cancelStep := rapid.IntRange(0, 80).Draw(rt, "cancel-at-step")
 	g := newGatedRun(rt, sc, saneSteps)
 	defer g.cleanup()
+	// One run in four: after the cancellation every user callback fails with its own error
+	// (the call must still report the context's error).
+	g.failAfterCancel = rapid.IntRange(0, 3).Draw(rt, "callbacks-fail-after-cancel") == 0
 	base, cancel := context.WithCancel(context.Background())
 	g.cancel = cancel
 	ctx := base
@@ -98,6 +102,12 @@ func runC10(rt *rapid.T, st *stats.Collector) {
 			"cancel_step": cancelStep, "do_error": fmt.Sprint(g.doErr), "schedule_head": strings.Join(g.trace[:min(len(g.trace), 30)], " ")}
 	})
 	st.Label("kind:" + kind)
+	if sc.prior > 0 {
+		st.Label("after-earlier-exception-queries")
+	}
+	if g.failAfterCancel && g.canceled {
+		st.Label("callbacks-fail-after-cancel")
+	}
 	if g.doErr == nil {
 		// The exchange completed before (or despite) the cancellation: nothing is required.
 		st.Label("outcome:completed")
